@@ -51,10 +51,12 @@ ASSUMPTIONS = ['transport = marshal version 2 exactly as sandbox.Sandbox._send_t
                'client-sent cells are primitives or typed cell values of the documented shapes '
                '(documentation/grist-data-format.md) plus a labelled class of malformed typed values, which '
                'decode_object documents it tolerates',
-               'formulas may define classes and import modules (the sandbox is process-level, not language-level)']
+               'formulas may define classes and import modules (the sandbox is process-level, not language-level); '
+               'they do not return objtypes.ReferenceLookup (input-only instruction object, only constructible by '
+               'importing engine internals; it is still sent as a client cell ["l", ...])']
 TECHNIQUE = 'round-trip PBT + in-memory transport differential'
 BUDGET = {'quick': dict(examples=600, shards=8, max_seconds=60),
-          'thorough': dict(examples=24000, shards=16, max_seconds=600)}
+          'thorough': dict(examples=16000, shards=16, max_seconds=600)}
 MIN_NONTRIVIAL = 10
 
 PROD_RECURSION_LIMIT = 1000
@@ -423,7 +425,8 @@ def run_program(case):
       continue
     mode = f.get('mode') if f.get('mode') in MODES else 'return'
     ftype = FTYPES[abs(pyvals._int(f.get('type'))) % len(FTYPES)]
-    cols.append(('F%d' % i, ftype, mode, f.get('v'), formula_text(mode, f.get('v'))))
+    fspec = pyvals.for_formula(f.get('v'))
+    cols.append(('F%d' % i, ftype, mode, fspec, formula_text(mode, fspec)))
   via = case.get('via') if case.get('via') in ('AddColumn', 'ModifyColumn', 'AddTable') else 'AddColumn'
   edit = case.get('edit', _NOTHING)
   nontrivial = any(not is_plain(c) for c in cells)
